@@ -129,6 +129,16 @@ def render_forwarding(o, i, fl, placement):
         L += ['def inner(%s):' % absig.render_params(i), '    return locals()',
               'def relay(fn, /, *a, **k):', '    return fn(*a, **k)',
               'def w(%s):' % absig.render_params(o), '    return ' + ct.replace(', )', ')'), '']
+    elif placement in ('auto_first_unresolvable', 'auto_first_incompatible'):
+        # a second forwarding call whose callee cannot be resolved (taken out of a table) / that is incompatible with its callee (a positional
+        # argument for a callee without positional parameters) comes FIRST: nothing can be concluded for the function as a whole
+        first = 'TABLE[0]' if placement == 'auto_first_unresolvable' else 'kwonly'
+        L += ['def inner(%s):' % absig.render_params(i), '    return locals()',
+              'def other(*, only_q=None):', '    return locals()', 'TABLE = [other]',
+              'def kwonly(*, only_q=None):', '    return locals()',
+              'def w(%s):' % absig.render_params(o),
+              '    ' + (call_text(first, o, fl) if placement == 'auto_first_unresolvable' else call_text(first, o, dict(fl, n=fl['n'] + 1))),
+              '    return ' + call_text('inner', o, fl), '']
     elif placement == 'auto_class_call':
         # the subject is a CLASS whose instances forward when called: calling the class runs the constructor (which takes nothing here),
         # whatever __call__ would accept
